@@ -63,4 +63,18 @@ PROPS = {
         trusted_base=["allocation measured with runtime.MemStats.TotalAlloc in the worker"],
         assumptions=[],
     ),
+    "C18": dict(
+        lean_modules=["Enc.Props.C18"],
+        variants=V_DEFAULT, areas=["iso8601."], allowed_native=["Enc.Lemmas.Iso"],
+        main_theorem="Enc.Props.C18 (fast path = byte-wise definition; Valid = grammar)",
+        rule="Parse vs time.Parse(RFC3339Nano): every calendar date of sampled (quick) / all (thorough) years 0000-9999 incl. the "
+             "first invalid day of each month, every second of a day incl. 24/60/60, EVERY byte value at EVERY position of "
+             "20 templates of every length 20..31 (fraction 0..11 digits, ',' fraction, 1-digit hour, zones), all deletions "
+             "and insertions, zone hour/minute grid, random mutations; json.Unmarshal into time.Time. Valid: 32 flag subsets x "
+             "grammar-directed strings with one-edit mutations vs a regexp built from the property's grammar, allocation count. "
+             "in-process comparison with the oracle, a sample through the Lean driver (impl = model = spec)",
+        trusted_base=["time.Parse of the installed Go toolchain is the oracle for Parse (called in-process)",
+                      "the fall-through call to time.Parse is a call-through in the model (M = '-' there)"],
+        assumptions=[],
+    ),
 }
